@@ -146,7 +146,8 @@ structure LRow where
   ee : Nat
   fs : Nat
   fl : Nat
-deriving Inhabited
+
+instance : Inhabited LRow := ⟨⟨0, 0, 0, 0⟩⟩
 
 /-- `data[start : start + len]` of one field -/
 def fieldOf (data : Bytes) (r : LRow) : Bytes := (data.drop r.fs).take r.fl
@@ -165,14 +166,22 @@ def compact (data : Bytes) (rows : List LRow) : Bytes × List LRow := compactFro
 /-- the field lies inside its line, the line inside the text -/
 def WFRow (data : Bytes) (r : LRow) : Prop := r.es ≤ r.fs ∧ r.fs + r.fl ≤ r.ee ∧ r.ee ≤ data.length
 
-/-- the text of a tab-separated table: every field followed by a tab, the last one by a newline -/
-def tableText (lines : List (List Bytes)) : Bytes := (lines.map (fun fs => List.intercalate [9] fs ++ [10])).flatten
+/-- one line of a tab-separated table: the fields joined by tabs, then a newline (a line with no
+field is the lone newline) -/
+def lineBytes : List Bytes → Bytes
+  | [] => [10]
+  | [f] => f ++ [10]
+  | f :: g :: rest => f ++ 9 :: lineBytes (g :: rest)
 
-/-- line and field positions of column `col` in `tableText lines` (from byte `pos` on) -/
+/-- the text of a tab-separated table -/
+def tableText (lines : List (List Bytes)) : Bytes := (lines.map lineBytes).flatten
+
+/-- line and field positions of column `col` in `tableText lines` (from byte `pos` on); a line that
+has no column `col` gets the empty field at its end -/
 def lineRows (col : Nat) (pos : Nat) : List (List Bytes) → List LRow
   | [] => []
   | fs :: rest =>
-    let lineLen := (fs.map (fun f => f.length + 1)).sum
+    let lineLen := (lineBytes fs).length
     ⟨pos, pos + lineLen, pos + ((fs.take col).map (fun f => f.length + 1)).sum, (fs.getD col []).length⟩ ::
       lineRows col (pos + lineLen) rest
 
